@@ -40,9 +40,39 @@ func (P *Prog) recvFieldWrites(fn *ssa.Function, recvIdx int, depth int, seen ma
 					out[k] = append(out[k], in)
 				}
 			}
+			// the address of a receiver field handed to a function that stores through it
+			// (`v.tests.add(t)` with `func (l *testList) add(t Test) { *l = append(*l, t) }`)
+			if fa, ok := cv(a).(*ssa.FieldAddr); ok {
+				if b, f := fieldVar(fa); f != nil && cvi(b) == recv && P.storesThroughParam(ci.static, i, 0) {
+					out[P.roleName(f)] = append(out[P.roleName(f)], in)
+				}
+			}
 		}
 	})
 	return out
+}
+
+// storesThroughParam: fn writes the memory its pointer parameter #idx points to (directly, or by handing
+// the pointer on to a module function that does).
+func (P *Prog) storesThroughParam(fn *ssa.Function, idx int, depth int) bool {
+	if fn == nil || fn.Blocks == nil || idx >= len(fn.Params) || depth > 3 {
+		return false
+	}
+	prm := ssa.Value(fn.Params[idx])
+	found := false
+	eachInstr(fn, func(_ *ssa.BasicBlock, _ int, in ssa.Instruction) {
+		if st, ok := in.(*ssa.Store); ok && cvi(st.Addr) == prm {
+			found = true
+		}
+		if ci := callOf(in); ci != nil && ci.static != nil && inModule(funcPkgPath(ci.static)) {
+			for i, a := range ci.args() {
+				if cvi(a) == prm && P.storesThroughParam(ci.static, i, depth+1) {
+					found = true
+				}
+			}
+		}
+	})
+	return found
 }
 
 func checkC17(P *Prog, r *Result) {
@@ -380,7 +410,7 @@ func (P *Prog) checkNotTypestate(r *Result) {
 			plainW = w.fn
 		}
 	}
-	spec := &pathSpec{name: "not-consumer"}
+	spec := &pathSpec{name: "not-consumer", inlineAll: true}
 	spec.keep = func(f *ssa.Function) bool { return f == negW || f == plainW || f.Name() == "NotIssueCode" }
 	spec.cond = func(iff *ssa.If) (string, string, string) {
 		c, neg := condKey(iff.Cond)
@@ -405,7 +435,8 @@ func (P *Prog) checkNotTypestate(r *Result) {
 				}
 			}
 		case *ssa.Store:
-			if _, f := fieldVar(x.Addr); f != nil {
+			// (the address may be a pointer parameter of a helper bound to `&v.tests`: `func (l *testList) add(t Test)`)
+			if _, f := fieldVar(cv(x.Addr)); f != nil {
 				switch P.roleName(f) {
 				case "isNot":
 					v := "other"
